@@ -135,6 +135,9 @@ CHECKS["C07"] = {
         {"engine": "P", "pkg": "internal/cache", "race": True, "tests": [
             {"run": "TestVfC07MemCacheHammer", "quick": 120, "thorough": 6000, "shards_quick": 4, "shards_thorough": 12, "timeout_quick": 300},
         ]},
+        {"engine": "E", "proxy": ["plain"], "tests": [
+            {"run": "TestVfC07Cache", "quick": 400, "thorough": 12000, "shards_quick": 8, "shards_thorough": 16, "timeout_thorough": 3400},
+        ]},
     ],
     "assumptions": [
         "client-group labels are printable strings without '#'; ranges in marker files do not overlap (overlap must be rejected at load)",
@@ -168,6 +171,9 @@ CHECKS["C12"] = {
     "parts": [
         {"engine": "P", "pkg": "app/router", "tests": [
             {"run": "TestVfC12EcsEncoder", "quick": 50000, "thorough": 2000000, "shards_quick": 2, "shards_thorough": 8},
+        ]},
+        {"engine": "E", "proxy": ["plain"], "tests": [
+            {"run": "TestVfC12Edns", "quick": 2400, "thorough": 60000, "shards_quick": 8, "shards_thorough": 16, "timeout_thorough": 3400},
         ]},
     ],
     "assumptions": ["at most one OPT per message (RFC 6891)"],
@@ -244,4 +250,33 @@ CHECKS["C03"] = {
         ]},
     ],
     "assumptions": ["well-formed fake replies carry the lower-cased question they were asked, as real servers do", "clients keep their transport open until the response or 9 s"],
+}
+
+CHECKS["C10"] = {
+    "title": "Rules are first-match and a query reaches only the selected upstream",
+    "level": "exploration",
+    "level_text": "Generated YAML configurations (upstreams, shared domain files, empty sets, rule lists with domain/reverse/reject/forward/no action) are run by the real binary, one process per configuration, and probed with generated queries; a reference first-match model predicts the client rcode, the answering upstream and the exact upstream traffic. Mutated (invalid) configurations must make the process exit non-zero without serving. Exploration.",
+    "level_note": "Domain entries are kept simple here (LDH labels, a few regexps); the matcher itself is C11's subject. reverse is only generated together with a domain condition.",
+    "technique": "property-based testing (rapid): generated configurations against the real binary, reference model of rule evaluation, upstream traffic log as oracle",
+    "parts": [
+        {"engine": "E", "proxy": ["plain"], "tests": [
+            {"run": "TestVfC10Rules", "quick": 160, "thorough": 4000, "shards_quick": 8, "shards_thorough": 16, "timeout_thorough": 3400},
+            {"run": "TestVfC10BadConfig", "quick": 80, "thorough": 1600, "shards_quick": 4, "shards_thorough": 8},
+        ]},
+    ],
+    "assumptions": ["cache off in generated configurations, so a forward decision means exactly one upstream query", "reverse without a domain condition is not generated (the statement does not define it)"],
+}
+
+CHECKS["C13"] = {
+    "title": "Stream listeners frame correctly under any segmentation and pipelining",
+    "level": "exploration",
+    "level_text": "Generated pipelines of 1-60 queries with generated segmentation plans (cuts inside prefixes and bodies, single-octet segments, pauses) and generated upstream delays are sent to the tcp, gnet and tls listeners of the real binary; the return stream is parsed strictly: exactly k frames, prefix = body length, every body decodes, IDs form the same multiset, every answer belongs to its query; with a small concurrency limit the upstream is gated so that exactly k-limit REFUSED responses must appear. Exploration; completion orders are sampled by the OS.",
+    "level_note": "Segments are separate writes with TCP_NODELAY and optional pauses; the kernel may still coalesce them.",
+    "technique": "property-based testing (rapid): generated segmentations and pipelines against the real binary, strict stream parser as oracle",
+    "parts": [
+        {"engine": "E", "proxy": ["plain"], "tests": [
+            {"run": "TestVfC13Framing", "quick": 480, "thorough": 16000, "shards_quick": 8, "shards_thorough": 16, "timeout_thorough": 3400},
+        ]},
+    ],
+    "assumptions": ["queries carry padding records in the additional section to vary frame sizes (ignored by the proxy)"],
 }
